@@ -5,11 +5,12 @@ CFG = {
         "Parsley.C14.objstm_rejects_order", "Parsley.C14.objstm_rejects_short", "Parsley.C14.first_beyond_rejected",
         "Parsley.C14.overrun_rejected", "Parsley.C14.defined_rejected", "Parsley.C14.repeated_rejected",
         "Parsley.C14.offset_beyond_rejected", "Parsley.C14.defect17_witness",
-        "Parsley.ObjStm.metaLoop_good", "Parsley.ObjStm.streamLoop_good", "Parsley.ObjStm.streamLoop_complete",
+        "Parsley.ObjStm.readAt_eq_parseObj", "Parsley.ObjStm.metaLoop_good", "Parsley.ObjStm.streamLoop_good", "Parsley.ObjStm.streamLoop_complete",
     ],
     "partial": {
         "(value at the declared offset)": "objstm_roundtrip is at full strength for the object-stream layer: 'the object located at offset o' is "
-            "what the object parser (optional white space/comments, then parse_pdf_obj; model of C02/C16) reads at o, with NO assumption on the bytes "
+            "what the object parser (optional white space/comments, then parse_pdf_obj; model of C02/C16) reads at o - proved equal to parse_pdf_obj "
+            "applied directly at o (readAt_eq_parseObj) - with NO assumption on the bytes "
             "between the end of one object and the next declared offset. That this reader returns the value that was spelled there is C02's "
             "statement (spell_parse, still partial); here it is decided by the oracle on generated streams (the oracle knows the spelled values).",
         "(header layouts)": "the header theorems quantify over all white-space layouts (any run of the six PDF white-space bytes); headers "
@@ -17,7 +18,7 @@ CFG = {
         "(filters)": "the filter decoders are a parameter of the model (C06 owns them): the theorems hold for every decoder function; "
             "the real FlateDecode path is exercised by the harness on generated zlib streams",
     },
-    "n": {"quick": 1500, "thorough": 60000},
+    "n": {"quick": 4000, "thorough": 250000},
     "exhaustive": {"quick": False, "thorough": True},
     "shrink": False,
     "rule": "corpus (defect #17 input, the unit-test fixtures, one case per rejection rule, huge numbers) + exhaustive small space: every content over "
